@@ -12,6 +12,7 @@ import (
 	"encoding/json"
 	"fmt"
 	"sort"
+	"strings"
 	"testing"
 	"time"
 
@@ -28,6 +29,11 @@ type c15FanClient struct {
 	Rejoin bool     `json:"rejoin,omitempty"` // cleanSession=false; drops and reconnects (cleanSession=false) before the publishes
 	Park   bool     `json:"park,omitempty"`   // (with rejoin) the reconnect happens while the old connection's teardown is parked in the Disconnect pipeline
 	Gone   bool     `json:"gone"`             // unregistered through the admin endpoint before the publishes (subscriptions stay in the trie)
+	OnePkt bool     `json:"onepkt,omitempty"` // all of Subs travel in ONE SUBSCRIBE packet (a repeated filter: the last QoS counts)
+	// cleanSession=false; before the publishes the id is taken over Takeover (1|2) times by a new cleanSession=false
+	// connection while the old one stays open; after the first takeover the new connection SUBSCRIBEs Subs2
+	Takeover int      `json:"takeover,omitempty"`
+	Subs2    []c15Sub `json:"subs2,omitempty"`
 }
 
 type c15FanPub struct {
@@ -54,7 +60,7 @@ func c15RunFan(in c15FanIn) (obs c15FanObs) {
 	obs.Bad = []string{}
 	seen := map[string]bool{}
 	for _, c := range in.Clients {
-		for _, s := range c.Subs {
+		for _, s := range append(append([]c15Sub{}, c.Subs...), c.Subs2...) {
 			if !seen[s.F] {
 				seen[s.F] = true
 				obs.Filters = append(obs.Filters, s.F)
@@ -83,19 +89,33 @@ func c15RunFan(in c15FanIn) (obs c15FanObs) {
 			obs.Bad = append(obs.Bad, "duplicate client id "+c.Cid)
 			continue
 		}
-		cli, code := env.dial(c.Cid, !c.Rejoin, true)
+		persistent := c.Rejoin || c.Takeover > 0
+		cli, code := env.dial(c.Cid, !persistent, true)
 		if cli == nil {
 			obs.Bad = append(obs.Bad, fmt.Sprintf("connect %s refused %d", c.Cid, code))
 			continue
 		}
-		if c.Rejoin {
+		if persistent {
 			c15Quiesce(env.open)
+		}
+		if c.OnePkt && len(c.Subs) > 0 {
+			fs, qs := []string{}, []byte{}
+			for _, s := range c.Subs {
+				fs = append(fs, s.F)
+				qs = append(qs, byte(s.Q))
+			}
+			if r := cli.subscribe(fs, qs); r != "ok" {
+				obs.Bad = append(obs.Bad, fmt.Sprintf("subscribe %s (one packet): %s", c.Cid, r))
+			}
+			c15Quiesce(env.open)
+			live[c.Cid] = cli
+			continue
 		}
 		for _, s := range c.Subs {
 			if r := cli.subscribe([]string{s.F}, []byte{byte(s.Q)}); r != "ok" {
 				obs.Bad = append(obs.Bad, fmt.Sprintf("subscribe %s %s: %s", c.Cid, s.F, r))
 			}
-			if c.Rejoin {
+			if persistent {
 				// Session.store() hands every snapshot to its own goroutine: two snapshots in flight may reach the
 				// storage in either order. Let each one land before the next change, as the C16 harness does.
 				c15Quiesce(env.open)
@@ -113,15 +133,41 @@ func c15RunFan(in c15FanIn) (obs c15FanObs) {
 			if r := cli.unsubscribe([]string{f}); r != "ok" {
 				obs.Bad = append(obs.Bad, fmt.Sprintf("unsubscribe %s %s: %s", c.Cid, f, r))
 			}
-			if c.Rejoin {
+			if c.Rejoin || c.Takeover > 0 {
 				c15Quiesce(env.open)
+			}
+		}
+		if c.Takeover > 0 && !c.Left && !c.Gone {
+			// make sure the session has served this connection before it is taken over
+			if len(c.Subs) > 0 {
+				warm := strings.NewReplacer("+", "w", "#", "w").Replace(c.Subs[0].F)
+				env.httpPublishDist(warm, 0, "warm-up", true)
+				c15Quiesce(env.open)
+				cli.ping()
+			}
+			for n := 0; n < c.Takeover && n < 2; n++ {
+				again, code := env.dial(c.Cid, false, true) // the old connection stays open: a takeover
+				if again == nil {
+					obs.Bad = append(obs.Bad, fmt.Sprintf("takeover %s refused %d", c.Cid, code))
+					break
+				}
+				live[c.Cid] = again
+				c15Quiesce(env.open)
+				if n == 0 {
+					for _, s := range c.Subs2 {
+						if r := again.subscribe([]string{s.F}, []byte{byte(s.Q)}); r != "ok" {
+							obs.Bad = append(obs.Bad, fmt.Sprintf("subscribe %s %s: %s", c.Cid, s.F, r))
+						}
+						c15Quiesce(env.open)
+					}
+				}
 			}
 		}
 		if c.Left {
 			cli.closeSock()
 			env.open--
 			delete(live, c.Cid)
-		} else if c.Rejoin {
+		} else if c.Rejoin && c.Takeover == 0 {
 			if c.Park {
 				env.gate.arm(c.Cid)
 			}
@@ -147,7 +193,7 @@ func c15RunFan(in c15FanIn) (obs c15FanObs) {
 			delete(live, c.Cid)
 		}
 		if !c15Quiesce(env.open) {
-			obs.Bad = append(obs.Bad, "no quiescence after "+c.Cid+" changed")
+			obs.Bad = append(obs.Bad, "no quiescence after "+c.Cid+" changed: "+c15LastStuck)
 		}
 	}
 	for i, p := range in.Pubs {
@@ -180,7 +226,13 @@ func c15RunFan(in c15FanIn) (obs c15FanObs) {
 	}
 	// a client removed by the admin endpoint must not have been served
 	for _, c := range env.clis {
-		if _, ok := live[c.cid]; !ok && len(c.received()) > 0 {
+		n := 0
+		for _, pk := range c.received() {
+			if pk.Payload != "warm-up" {
+				n++
+			}
+		}
+		if _, ok := live[c.cid]; !ok && n > 0 {
 			obs.Bad = append(obs.Bad, "unregistered client "+c.cid+" received a message")
 		}
 	}
@@ -235,7 +287,47 @@ func c15GenFan(r *vfRand, adv bool) c15FanIn {
 				c.Subs = append(c.Subs, c15Sub{F: c.Subs[1].F, Q: 1})
 			}
 		}
-		if !c.Gone && r.Chance(1, 4) && len(c.Subs) > 0 {
+		if !c.Gone && !c.Rejoin && r.Chance(1, 6) && len(c.Subs) > 0 {
+			// the id is taken over once or twice while the old connection stays open (shared persistent session);
+			// between the takeovers the subscription set changes WITHOUT changing its size
+			c.Takeover = r.Range(1, 2)
+			switch r.Intn(3) {
+			case 0: // QoS-only change of a known filter
+				q := 1
+				if c.Subs[0].Q >= 1 {
+					q = 0
+				}
+				c.Subs2 = []c15Sub{{F: c.Subs[0].F, Q: q}}
+			case 1: // one filter swapped for another
+				g := ""
+				for _, f := range c15Filters {
+					fresh := true
+					for _, sb := range c.Subs {
+						if sb.F == f {
+							fresh = false
+						}
+					}
+					if fresh && r.Chance(1, 3) {
+						g = f
+						break
+					}
+				}
+				if g != "" {
+					c.Unsubs = []string{c.Subs[0].F}
+					c.Subs2 = []c15Sub{{F: g, Q: r.PickInt(0, 1, 1)}}
+				}
+			}
+		}
+		if !c.Gone && r.Chance(1, 8) && len(c.Subs) > 0 {
+			// a filter repeated inside one SUBSCRIBE packet: the last QoS counts
+			c.OnePkt = true
+			q := 1
+			if c.Subs[0].Q >= 1 {
+				q = 0
+			}
+			c.Subs = append(c.Subs, c15Sub{F: c.Subs[0].F, Q: q})
+		}
+		if !c.Gone && c.Takeover == 0 && r.Chance(1, 4) && len(c.Subs) > 0 {
 			// unsubscribe one of its own filters (sometimes one it never had) or leave altogether
 			switch r.Intn(4) {
 			case 0:
